@@ -12,5 +12,6 @@ Definition run_suite (id : bytes) (ls : list line) : list line :=
   else if mem id (map bs ["GR"; "C13"; "C16"]%string) then run_case (SGroup.suite_gr id) ls
   else if beqb id (bs "C05m") then run_case (SMatch.suite_mx (bs "C05")) ls
   else if beqb id (bs "C05g") then run_case (SGroup.suite_gr (bs "C05")) ls
+  else if beqb id (bs "C08g") then run_case (SGroup.suite_gr (bs "C08")) ls
   else if beqb id (bs "C09g") then run_case (SGroup.suite_gr (bs "C09")) ls
   else [[bs "X"; bs "0"; bs "unknown-suite"]].
